@@ -39,5 +39,20 @@ package config
 // A name that CleanDomain reports as valid is in wire form: it matches the domain expression (an IDN name is
 // returned in its punycode form, which is what DNS queries carry).
 //@ func CleanDomain
+//@   option function
 //@   modifies nothing
 //@   ensures valid-names-are-in-wire-form [C19]: valid ==> uf("regexmatch", bool, domainRegex, cleaned)
+
+// A friend is resolved as <name>.myco. Queries arrive in cleaned form (lower case, IDN names in punycode), so a
+// friend must be filed - and found from the "for" list of a service - under the cleaned form of its name:
+// friendNameKey is that form. Filed under any other key the friend source never matches and a stored mapping
+// for the friend's name would be answered instead (defect found by review, repaired: see KNOWN_FINDINGS).
+//@ func friendNameKey
+//@   option function
+//@   modifies nothing
+//@   callsite CleanDomain name-is-cleaned-as-a-myco-domain [C19]: arg0 == name + DefaultDotTLD
+//@   callsite strings.ToLower other-names-are-lower-cased [C19]: arg0 == name
+//@   callsite strings.TrimSuffix only-the-tld-is-cut [C19]: arg0 == cleaned && arg1 == DefaultDotTLD
+//@ func Store.parse
+//@   option nosafety
+//@   callsite map-update:FriendsByName friends-filed-under-their-lookup-name [C19]: arg1 == friendNameKey(friend.Name)
